@@ -76,7 +76,7 @@ def run_variant(prop: str, v: V, root: str = None) -> Dict:
         mod.run(ctx)
         un = getattr(repo, "unresolved", {})
         for r in list(ctx.results):
-            if r.status == "violation" and r.function in un:
+            if r.status == "violation" and r.function in un and not r.name_free:
                 ctx.results.remove(r)
                 ctx.errors.append((r.rule, f"not trusted (unidentified locals {un[r.function]}): {r.message[:100]}"))
         viols = ctx.violations()
